@@ -10,6 +10,8 @@ No Mathlib.
 -/
 import Rl4co.Core.Proto
 import Rl4co.Decode.ProcessLogits
+import Rl4co.Decode.LogitsStep
+import Rl4co.Generated.LogitsPipeline
 import Rl4co.Spec.Decode
 namespace Rl4co.Driver.Logits
 open Rl4co.Proto Rl4co.Decode
@@ -87,7 +89,10 @@ def process (toks : List String) : Option String := do
   let x4 := (afterK clip cfg n x mask kth).get
   let sigA : Array Nat := (if sigs.isEmpty then autoSigma n x4 else toNats sigs).toArray
   let σ : Nat → Nat := fun i => sigA.getD i 0
-  let out := processLogitsOpt (ml != 0) pow2 clip cfg n x (fnBA ms) kth σ
+  -- mask_logits = True: the *generated* statement sequence (Generated/LogitsPipeline.lean, = `processLogits` by
+  -- `processLogitsGen_eq`) is what is compared with the real code
+  let out := if ml != 0 then Generated.processLogitsGen pow2 clip cfg n x (fnBA ms) kth σ
+             else processLogitsOpt false pow2 clip cfg n x (fnBA ms) kth σ
   let kthOk := cfg.topK = 0 ∨ KthValid n cfg.topK x3 kth
   let toppOn := toppOff cfg.topP = false
   let sortOk := ¬ toppOn ∨ SortValid n x4 σ
@@ -135,6 +140,28 @@ def decodeOp (toks : List String) : Option String := do
   let ty := if g != 0 then "greedy" else "sampling"
   pure s!"res={resStr toString (decodeLogprobs ty (fnB ms) a (toNats ds))}"
 
+/-- `logits.book storeAll L1 evaluate | a[L1+L2]` : the buffers of a strategy object after a first sequence of
+`L1` steps (`post_decoder_hook`) and after a second sequence on the same object.  The distribution of step
+`t` is the tagged function `j ↦ 1000·t + j`, so a stored entry shows which index of which step was gathered
+(`all` = the whole row was stored).  With `evaluate = 1` the selected action is `evaluateSelect a`. -/
+def bookOp (toks : List String) : Option String := do
+  let [hd, as] ← parseSections toks | none
+  let [sa, l1, ev] := hd | none
+  let acts := toNats as
+  let steps : List ((Nat → Int) × Nat) :=
+    (List.range acts.length).map (fun t =>
+      let a := acts.getD t 0
+      ((fun j => (1000 * t + j : Int)), if ev != 0 then evaluateSelect a else a))
+  let first := steps.take l1.toNat
+  let second := steps.drop l1.toNat
+  let st1 := runSteps (sa != 0) StratState.init first
+  let st2 := runSteps (sa != 0) st1 second
+  let show_ : StratState Int → String := fun st =>
+    let (lp, ac) := postHook st
+    let e := lp.map (fun x => match x with | Logp.one v => toString v | Logp.all _ => "all")
+    s!"{natsStr ac}/{",".intercalate e}"
+  pure s!"first={show_ st1} reuse={show_ st2}"
+
 def chunks (n : Nat) (xs : List Int) : Nat → List (List Int)
   | 0 => []
   | b + 1 => xs.take n :: chunks n (xs.drop n) b
@@ -176,6 +203,6 @@ def specOp (toks : List String) : Option String := do
 
 def handlers : List (String × (List String → Option String)) :=
   [("logits.process", process), ("logits.greedy", greedyOp), ("logits.sample", sampleOp),
-   ("logits.sampleB", sampleBOp), ("logits.decode", decodeOp), ("logits.spec", specOp)]
+   ("logits.sampleB", sampleBOp), ("logits.decode", decodeOp), ("logits.book", bookOp), ("logits.spec", specOp)]
 
 end Rl4co.Driver.Logits
